@@ -14,7 +14,15 @@ PROP = {'rule': 'rapid state machine over GroupQuotaManager (unit core: the plug
          'quota whose subtree holds an assigned pod, or some group\'s request exceeded its max (clamped branch) during the run; distinct = '
          'FNV-64 of the operation history. Unit coreConcurrent (-race): fixed tree, per-pod event scripts on distinct pods merged onto 2-8 '
          'goroutines + a quota max/min/weight retuner + a reader, released together and joined; final summaries must equal the recomputation '
-         'and a fresh manager; non-trivial = >= 2 goroutines with pod operations and >= 6 calls.',
+         'and a fresh manager; non-trivial = >= 2 goroutines with pod operations and >= 6 calls. Units coreParkedReserve / '
+         'pluginParkedReserve: the same state machine and oracle with the generator aimed at pods created BEFORE their quota (parked in '
+         'the default quota, rare migrate cycle, quota creation prefers awaited names) and Reserve/Unreserve also issued while a pod is '
+         'parked, including after its own quota has appeared (the plugin then routes the call to that quota); where such a reservation '
+         'is charged (default or own quota) follows the manager, everything else is asserted; non-trivial = a reservation taken or rolled '
+         'back while the pod is parked. Unit coreConcurrentBurst (no -race): chain root <- 1-3 ancestors <- leaf with max 2-12 units, a '
+         'base load, 2-6 goroutines each owning 1-2 pods and applying a generated pattern of add/resize/delete events (sizes 1, 2, '
+         'gap-to-max, gap+1, max) repeated 1-400 times so the leaf keeps crossing its max; all joined, then the same oracle at quiescence; '
+         'non-trivial = a goroutine that both grows and shrinks (>= 50 calls), >= 2 growing goroutines, >= 200 calls.',
  'assumptions': ['all quotas of a run declare exactly {cpu, memory} in max (the statement\'s precondition); child min sums are not constrained '
                  '(the webhook allows that with the allow-force-update label)',
                  'a quota is deleted only when it has no child quotas (webhook rule); re-parenting never creates a cycle (C15\'s subject)',
@@ -28,16 +36,25 @@ PROP = {'rule': 'rapid state machine over GroupQuotaManager (unit core: the plug
                  'terminating pods are dropped only under feature gate ElasticQuotaImmediateIgnoreTerminatingPod (set per case, reset after); '
                  'the wall-clock variant of that gate is not exercised',
                  'concurrency: the partition onto goroutines and the per-goroutine merge order are generated, the Go scheduler decides the '
-                 'rest; -race plus the commutativity oracle sample the interleavings, they do not enumerate them'],
+                 'rest; -race plus the commutativity oracle sample the interleavings, they do not enumerate them',
+                 'coreConcurrentBurst is schedule-dependent: its verdict on correct code is not (the final live pod set is fixed by the '
+                 'generated lists, each pod belongs to one goroutine, the oracle runs after all goroutines are joined), but whether a lost '
+                 'update between concurrent pod events is provoked depends on the Go scheduler and the machine load; detection is '
+                 'probabilistic and needs GOMAXPROCS >= 2 (the driver sets 16)',
+                 'for a pod reserved while it is parked in the default quota although its own quota already exists, either quota is accepted '
+                 'as the place where the reservation is charged (the statement does not fix it); it must be charged exactly once'],
  'units': [{'name': 'core',
             'pkg': 'pkg/scheduler/plugins/elasticquota/core',
             'files': ['C01/c01_model_core_test.go', 'C01/c01_core_test.go'],
             'tests': [{'run': 'TestVerifC01CoreHistory', 'quick': 500, 'quick_shards': 2, 'thorough': 3000, 'steps': 40},
-                      {'run': 'TestVerifC01Concurrent', 'quick': 150, 'thorough': 400, 'shards': 6, 'race': True}]},
+                      {'run': 'TestVerifC01Concurrent', 'quick': 150, 'thorough': 400, 'shards': 6, 'race': True},
+                      {'run': 'TestVerifC01CoreParked', 'quick': 400, 'thorough': 2000, 'shards': 6, 'steps': 30},
+                      {'run': 'TestVerifC01ConcurrentBurst', 'quick': 150, 'quick_shards': 2, 'thorough': 600, 'shards': 6}]},
            {'name': 'plugin',
             'pkg': 'pkg/scheduler/plugins/elasticquota',
             'files': ['C01/c01_model_plugin_test.go', 'C01/c01_plugin_test.go'],
-            'tests': [{'run': 'TestVerifC01PluginHistory', 'quick': 300, 'thorough': 1500, 'shards': 6, 'steps': 40}]}],
+            'tests': [{'run': 'TestVerifC01PluginHistory', 'quick': 300, 'thorough': 1500, 'shards': 6, 'steps': 40},
+                      {'run': 'TestVerifC01PluginParked', 'quick': 200, 'thorough': 1000, 'shards': 4, 'steps': 30}]}],
  'manifest': {'technique': 'property-based testing (rapid): model-based state machine over quota/pod/node event histories with a from-scratch '
                            'reference recomputation and a fresh-instance differential; concurrent variant under the race detector',
               'text': 'Generated-input search: histories of quota create/update/re-parent/delete, pod add/update/move/delete, '
